@@ -166,6 +166,13 @@ func init() {
 		ex.havocFreshBytes(st, base, n)
 		cont(st, fr, res)
 	}
+	intrinsics["bytes.TrimPrefix"] = func(ex *Exec, fr *Frame, in ssa.Instruction, fn *ssa.Function, args []Value, st *State, cont callCont) {
+		// the result is s itself or s without its first len(prefix) bytes
+		s, pre := args[0].(*SliceV), args[1].(*SliceV)
+		cut := FreshVar("trimmed", SBool)
+		k := Ite(And(cut, BVCmp("bvule", pre.Len, s.Len)), pre.Len, BVc(0, 64))
+		cont(st, fr, &SliceV{Base: s.Base, Off: BVBin("bvadd", s.Off, k), Len: BVBin("bvsub", s.Len, k), Cap: BVBin("bvsub", s.Cap, k)})
+	}
 	intrinsics["encoding/hex.Decode"] = func(ex *Exec, fr *Frame, in ssa.Instruction, fn *ssa.Function, args []Value, st *State, cont callCont) {
 		// hex.Decode(dst, src) writes len(src)/2 bytes into dst WITHOUT checking its length (the stdlib
 		// documents that it expects dst to be large enough): an index panic otherwise
